@@ -649,7 +649,7 @@ fn gen_c11(rng: &mut Rng, thorough: bool) -> Case {
             if r < 30 {
                 *cmd = Cmd::ProcessQuery { target, kind };
             } else if r < 50 && !c.sources.is_empty() {
-                *cmd = Cmd::ProcessSource { src: rng.usize(c.sources.len()) as u16, kind };
+                *cmd = Cmd::ProcessSource { src: rng.usize(c.sources.len()) as u16, kind, pmode: rng.below(3) as u8 };
             }
         }
     }
@@ -662,7 +662,7 @@ fn gen_c11(rng: &mut Rng, thorough: bool) -> Case {
             1 => Cmd::StepUntil { when: When::Rel(scale * rng.range(0, 2)) },
             2 => Cmd::ProcessEvent { target: rng.usize(n) as u16, kind: rng.below(kinds) as u8 },
             3 => Cmd::ProcessQuery { target: rng.usize(n) as u16, kind: rng.below(kinds) as u8 },
-            4 if !c.sources.is_empty() => Cmd::ProcessSource { src: rng.usize(c.sources.len()) as u16, kind: rng.below(kinds) as u8 },
+            4 if !c.sources.is_empty() => Cmd::ProcessSource { src: rng.usize(c.sources.len()) as u16, kind: rng.below(kinds) as u8, pmode: rng.below(3) as u8 },
             _ => Cmd::StepUntil { when: When::Past(1 + rng.below(5)) },
         };
         c.script.push(cmd);
@@ -1084,7 +1084,7 @@ fn gen_c14(rng: &mut Rng, thorough: bool) -> Case {
         } else if r < 70 || c.sources.is_empty() {
             Cmd::ProcessQuery { target: rng.usize(n) as u16, kind: rng.below(kinds) as u8 }
         } else {
-            Cmd::ProcessSource { src: rng.usize(c.sources.len()) as u16, kind: rng.below(kinds) as u8 }
+            Cmd::ProcessSource { src: rng.usize(c.sources.len()) as u16, kind: rng.below(kinds) as u8, pmode: rng.below(3) as u8 }
         };
         if gen::cmd_volume(&c, &cmd) <= 80 {
             script.push(cmd);
